@@ -122,13 +122,15 @@ shapes_event = [
     ("three_msg", 'a = tick(0, 1u8), b = tick(1, "s"), "m {}", tick(2, 1)', "", [("message", "debug", "m 1"), ("a", "u64", "1"), ("b", "str", "s")], 3, True),
     ("trailing_comma", 'a = tick(0, 1u8), b = tick(1, 2i8),', "", [("a", "u64", "1"), ("b", "i64", "2")], 2, False),
     ("litsigil", '"lit d" = %tick(0, DV("d")), "lit g" = ?tick(1, DV("x")), "last d" = %tick(2, DV("e"))', "", [("lit d", "debug", "d"), ("lit g", "debug", "DBG<x>"), ("last d", "debug", "e")], 3, False),
+    ("brace_msg", '{ k = tick(0, 7u32) }, "plain message"', "", [("message", "debug", "plain message"), ("k", "u64", "7")], 1, True),
+    ("brace_msgargs", '{ k = tick(0, 7u32), j = %tick(1, DV("d")) }, "msg {} {}", tick(2, 5), tick(3, "x")', "", [("message", "debug", "msg 5 x"), ("k", "u64", "7"), ("j", "debug", "d")], 4, True),
     ("litsigil2", '"lit g" = ?tick(0, DV("x")), mid = tick(1, 2u8), "lit d" = %tick(2, DV("d")), "last g" = ?tick(3, DV("y"))', "", [("lit g", "debug", "DBG<x>"), ("mid", "u64", "2"), ("lit d", "debug", "d"), ("last g", "debug", "DBG<y>")], 4, False),
 ]
 shapes_span = [s for s in shapes_event if not s[5]] + [("nofields", "", "", [], 0, False)]
 
 ev_macros = [("event", "tracing::event!", True, 3), ("trace", "tracing::trace!", False, 5), ("debug", "tracing::debug!", False, 4), ("info", "tracing::info!", False, 3), ("warn", "tracing::warn!", False, 2), ("error", "tracing::error!", False, 1)]
 sp_macros = [("span", "tracing::span!", True, 3), ("trace_span", "tracing::trace_span!", False, 5), ("debug_span", "tracing::debug_span!", False, 4), ("info_span", "tracing::info_span!", False, 3), ("warn_span", "tracing::warn_span!", False, 2), ("error_span", "tracing::error_span!", False, 1)]
-ev_prefixes = [("none", ""), ("target", 'target: "tg", '), ("parent", "parent: None, "), ("name", 'name: "nm", '), ("name_target", 'name: "nm", target: "tg", '), ("target_parent", 'target: "tg", parent: None, '), ("name_target_parent", 'name: "nm", target: "tg", parent: None, ')]
+ev_prefixes = [("none", ""), ("target", 'target: "tg", '), ("parent", "parent: None, "), ("name", 'name: "nm", '), ("name_target", 'name: "nm", target: "tg", '), ("name_parent", 'name: "nm", parent: None, '), ("target_parent", 'target: "tg", parent: None, '), ("name_target_parent", 'name: "nm", target: "tg", parent: None, ')]
 sp_prefixes = [("none", ""), ("target", 'target: "tg", '), ("parent", "parent: None, "), ("target_parent", 'target: "tg", parent: None, ')]
 
 def exp_list(exp):
